@@ -24,7 +24,7 @@ TECHNIQUE = "runtime monitoring: metamorphic half-span/full-span twin executions
 def cases(tier, seed):
     rng = np.random.default_rng(4000 + seed)
     out = []
-    n = 36 if tier == "quick" else 300
+    n = 36 if tier == "quick" else 900
     for k in range(n):
         ns = int(rng.choice([1, 1, 2, 3]))
         surfs = []
@@ -40,7 +40,7 @@ def cases(tier, seed):
         flow = dict(alpha=float(np.round(rng.uniform(-4, 10), 2)), beta=0.0, v=float(rng.uniform(50, 260)), rho=float(rng.uniform(0.3, 1.2)),
                     Mach_number=float(np.round(rng.uniform(0.5, 0.9), 3)), re=1e6, cg=[float(np.round(rng.uniform(-1, 3), 3)), 0.0, float(np.round(rng.uniform(-1, 1), 3))])
         out.append(dict(kind="aero", surfaces=surfs, flow=flow, compressible=bool(k % 4 == 3), _cost=4 * ns))
-    n = 12 if tier == "quick" else 90
+    n = 12 if tier == "quick" else 270
     for k in range(n):
         fem = "tube" if k % 2 else "wingbox"
         spec = M.random_spec(rng, half="left", nx=int(rng.integers(2, 4)), ny=int(rng.integers(3, 6)))
